@@ -3,7 +3,7 @@ import Mathlib.Analysis.SpecialFunctions.Log.Basic
 import Mathlib.Algebra.BigOperators.Fin
 import Mathlib.Tactic
 
-noncomputable instance : Transc ℝ := ⟨Real.exp, Real.log, Real.sqrt, Real.pi, fun n => (n : ℝ)⟩
+noncomputable instance : Transc ℝ := ⟨Real.exp, Real.log, Real.sqrt, Real.pi, fun n => (n : ℝ), fun x => decide (x = 0)⟩
 
 open Finset BobEM
 
